@@ -35,10 +35,12 @@ type Opts struct {
 	TagBias       bool // many tags, priorities with ties, several decorators
 	NoGlobals     bool // no service is a package-level variable (race-free user code for C20)
 	ScopeProb     float64
+	StdPkgs       bool    // services, values, types and functions taken from the packages the template itself imports (context, errors, fmt, os, reflect, strconv, the runtime's container package); compile-level checks only: the reference container does not model them
+	BigProb       float64 // share of configurations with two-digit counts of everything (services, parameters, tags, decorators, arguments, calls, functions)
 }
 
 func DefaultOpts() Opts {
-	return Opts{MaxServices: 6, Scopes: true, NonFinite: true, Getters: true, Decorators: true, Fail: true, ValueGetters: true}
+	return Opts{MaxServices: 6, Scopes: true, NonFinite: true, Getters: true, Decorators: true, Fail: true, ValueGetters: true, BigProb: 0.1}
 }
 
 type G struct {
@@ -49,6 +51,7 @@ type G struct {
 	fixt    map[string]string
 	fnNames map[string]string // registered function name -> symbol
 	tags    []string
+	big     bool
 }
 
 var fixtPaths = func() []string {
@@ -327,6 +330,9 @@ func (g *G) args(n int, svcBefore, params []string) []cfg.Val {
 func Behaviour(r *rand.Rand, o Opts) *cfg.Config {
 	g := &G{R: r, O: o, C: &cfg.Config{}, fnNames: map[string]string{}}
 	c := g.C
+	// thresholds: one configuration in ten has 9-20 of everything, so that two-digit indices, names like s10 < s9,
+	// maps beyond eight entries and lists beyond nine elements occur
+	g.big = g.chance(o.BigProb)
 	// meta
 	if !o.MainPkg {
 		c.Meta.Pkg = cfg.P(choose(g, "gen", "pk", "container", "di"))
@@ -350,11 +356,19 @@ func Behaviour(r *rand.Rand, o Opts) *cfg.Config {
 	}
 	r.Shuffle(len(cand), func(i, j int) { cand[i], cand[j] = cand[j], cand[i] })
 	g.aliases = cand[:g.pick(len(cand)+1)]
+	if g.big && !o.HostileAlias {
+		g.aliases = cand
+	}
 	c.Meta.Imports = append(c.Meta.Imports, g.aliases...)
 	// functions
 	fnCand := []struct{ name, sym string }{{"fn", "Fn"}, {"echo", "FnEcho"}, {"fnint", "FnInt"}, {"boom", "FnFail"}, {"f2", "Fn"}, {"Echo_2", "FnEcho"}, {"typed", "FnTyped"}}
+	if g.big {
+		for i := 3; i <= 12; i++ {
+			fnCand = append(fnCand, struct{ name, sym string }{fmt.Sprintf("fn%d", i), choose(g, "Fn", "FnEcho")})
+		}
+	}
 	for _, fc := range fnCand {
-		if g.chance(0.6) {
+		if g.chance(0.6) || g.big {
 			c.Meta.Functions = append(c.Meta.Functions, cfg.KS{K: fc.name, V: g.Ref(g.anyPkg(), fc.sym)})
 			g.fnNames[fc.name] = fc.sym
 		}
@@ -365,10 +379,19 @@ func Behaviour(r *rand.Rand, o Opts) *cfg.Config {
 	// tags pool
 	// tag names overlap with service and parameter names (a graph keyed by bare names would confuse them) and differ by case
 	tagPool := []string{"t", "u-1", "v.w", "x_y", "s0", "a.b1", "p0", "T", "svc1"}
+	if g.big {
+		tagPool = append(tagPool, "t10", "t9", "t1", "z-tag", "A.b", "k_1", "s10", "p11")
+	}
 	r.Shuffle(len(tagPool), func(i, j int) { tagPool[i], tagPool[j] = tagPool[j], tagPool[i] })
 	g.tags = tagPool[:1+g.pick(4)]
+	if g.big {
+		g.tags = tagPool[:9+g.pick(len(tagPool)-8)]
+	}
 	// params
 	np := 2 + g.pick(6)
+	if g.big {
+		np = 9 + g.pick(12)
+	}
 	var pnames []string
 	for i := 0; i < np; i++ {
 		name := choose(g, "p", "q", "host", "a.b", "c-d", "e_f", "s", "svc", "P", "Host") + fmt.Sprint(i)
@@ -386,6 +409,9 @@ func Behaviour(r *rand.Rand, o Opts) *cfg.Config {
 	}
 	// services
 	ns := 1 + g.pick(o.MaxServices)
+	if g.big {
+		ns = 9 + g.pick(10)
+	}
 	var snames []string
 	for i := 0; i < ns; i++ {
 		name := choose(g, "s", "svc", "a.b", "c-d", "db_x", "p", "S", "Svc", "t") + fmt.Sprint(i)
@@ -393,11 +419,32 @@ func Behaviour(r *rand.Rand, o Opts) *cfg.Config {
 		c.Services = append(c.Services, s)
 		snames = append(snames, name)
 	}
+	if o.StdPkgs && g.chance(0.6) {
+		g.addStdServices()
+	}
+	// text twins: a parameter whose value is the very text of a special argument used by a service (`@svc`, `!tagged t`,
+	// `!value X`, `$gontainer`): as a parameter it is a plain string, as an argument it is the special form
+	if g.chance(0.25) {
+		var texts []string
+		for _, s := range c.Services {
+			for _, a := range s.Args {
+				if a.Kind == "str" && special(a.S) && !strings.Contains(a.S, "%") {
+					texts = append(texts, a.S)
+				}
+			}
+		}
+		for i := 0; i < 2 && len(texts) > 0; i++ {
+			c.Params = append(c.Params, cfg.KV{K: fmt.Sprintf("aaTwin%d", i), V: cfg.Str(texts[g.pick(len(texts))])})
+		}
+	}
 	// decorators
 	if o.Decorators {
 		nd := g.pick(4)
 		if o.TagBias {
 			nd = 1 + g.pick(5)
+		}
+		if g.big {
+			nd = 8 + g.pick(6)
 		}
 		for i := 0; i < nd; i++ {
 			tag := g.tags[g.pick(len(g.tags))]
@@ -428,6 +475,104 @@ func Behaviour(r *rand.Rand, o Opts) *cfg.Config {
 		g.addGetters()
 	}
 	return c
+}
+
+const helpersContainer = "github.com/gontainer/gontainer-helpers/v3/container"
+
+// stdRef writes a reference to a symbol of a package outside the fixture universe, in a form the alias table leaves alone.
+func (g *G) stdRef(path, sym string) (string, bool) {
+	im := ref.Imports{Aliases: map[string]string{}}
+	for _, a := range g.aliases {
+		im.Aliases[a.K] = a.V
+	}
+	var ok []string
+	for _, w := range []string{path, `"` + path + `"`} {
+		if strings.Contains(path, "/") && !strings.HasPrefix(w, `"`) && g.chance(0.5) {
+			continue
+		}
+		if im.Resolve(w) == path {
+			ok = append(ok, w)
+		}
+	}
+	if len(ok) == 0 {
+		return "", false
+	}
+	return ok[g.pick(len(ok))] + "." + sym, true
+}
+
+// addStdServices declares services, a function and parameters that use the very packages the generated file imports for
+// itself: the user's use and the template's use must end up as one import each, in normal and in stub mode.
+func (g *G) addStdServices() {
+	type std struct {
+		pkg, ctor, value string
+		args             []cfg.Val
+		tpkg, typ        string
+		ptr              bool
+	}
+	cands := []std{
+		{pkg: "context", ctor: "Background", tpkg: "context", typ: "Context"},
+		{pkg: "context", ctor: "TODO"},
+		{pkg: "errors", ctor: "New", args: []cfg.Val{cfg.Str("boom")}},
+		{pkg: "fmt", ctor: "Sprint", args: []cfg.Val{cfg.Int(1), cfg.Str("a")}},
+		{pkg: "fmt", ctor: "Errorf", args: []cfg.Val{cfg.Str("x")}},
+		{pkg: "os", ctor: "Getenv", args: []cfg.Val{cfg.Str("HOME")}},
+		{pkg: "strconv", ctor: "Itoa", args: []cfg.Val{cfg.Int(5)}},
+		{pkg: "reflect", ctor: "TypeOf", args: []cfg.Val{cfg.Int(5)}, tpkg: "reflect", typ: "Type"},
+		{pkg: helpersContainer, ctor: "New", tpkg: helpersContainer, typ: "Container", ptr: true},
+		{pkg: "os", value: "Stdout", tpkg: "os", typ: "File", ptr: true},
+		{pkg: "context", value: "Canceled"},
+		{pkg: "os", value: "Args"},
+	}
+	n := 1 + g.pick(3)
+	for i := 0; i < n; i++ {
+		sd := cands[g.pick(len(cands))]
+		s := cfg.Service{Name: fmt.Sprintf("std%d", i)}
+		sym := sd.ctor + sd.value
+		w, ok := g.stdRef(sd.pkg, sym)
+		if !ok {
+			continue
+		}
+		if sd.ctor != "" {
+			s.Constructor = cfg.P(w)
+			s.Args = sd.args
+		} else {
+			s.Value = cfg.P(w)
+		}
+		if sd.typ != "" && g.chance(0.6) {
+			if t, ok := g.stdRef(sd.tpkg, sd.typ); ok {
+				if sd.ptr {
+					t = "*" + t
+				}
+				s.Type = cfg.P(t)
+				if g.chance(0.7) {
+					s.Getter = cfg.P(fmt.Sprintf("GetStd%d", i))
+					if g.chance(0.5) {
+						s.MustGetter = cfg.P(g.chance(0.7))
+					}
+				}
+			}
+		}
+		if g.O.Scopes && g.chance(0.3) {
+			s.Scope = cfg.P(choose(g, "shared", "contextual", "non_shared"))
+		}
+		g.C.Services = append(g.C.Services, s)
+	}
+	if g.chance(0.5) {
+		if w, ok := g.stdRef("strconv", "Itoa"); ok {
+			g.C.Meta.Functions = append(g.C.Meta.Functions, cfg.KS{K: "itoa", V: w})
+			g.C.Params = append(g.C.Params, cfg.KV{K: "stdp0", V: cfg.Str("n=%itoa(5)%")})
+		}
+	}
+	if g.chance(0.3) {
+		if w, ok := g.stdRef("os", "Stdout"); ok && len(g.C.Services) > 0 {
+			for i := range g.C.Services {
+				if s := &g.C.Services[i]; s.Constructor != nil && !s.IsTodo() && strings.HasSuffix(*s.Constructor, ".New") {
+					s.Args = append(s.Args, cfg.Str("!value "+w))
+					break
+				}
+			}
+		}
+	}
 }
 
 func (g *G) plainStringNoPct() string {
@@ -478,6 +623,9 @@ func (g *G) service(name string, before, params []string) cfg.Service {
 	}
 	if s.Constructor != nil {
 		n := g.pick(5)
+		if g.big && g.chance(0.3) {
+			n = 9 + g.pick(5)
+		}
 		if n > 0 || g.chance(0.2) {
 			s.Args = g.args(n, before, params)
 		}
@@ -520,6 +668,9 @@ func (g *G) service(name string, before, params []string) cfg.Service {
 		if g.chance(0.4) {
 			nc = 0
 		}
+		if g.big && g.chance(0.25) {
+			nc = 9 + g.pick(4)
+		}
 		for i := 0; i < nc; i++ {
 			m := choose(g, "Set", "Set", "Touch", "With", "WithP", "With", "WithP")
 			cl := cfg.Call{Method: m, Args: g.args(g.pick(3), before, params)}
@@ -555,6 +706,9 @@ func (g *G) service(name string, before, params []string) cfg.Service {
 	tagP := 0.3
 	if o.TagBias {
 		tagP = 0.6
+	}
+	if g.big {
+		tagP = choose(g, 0.15, 0.3, 0.9)
 	}
 	for _, t := range g.tags {
 		if g.chance(tagP) {
